@@ -217,3 +217,89 @@ func (w *World) judgeCoSide(i int, s *coSide, d *SimDisk, anyFail int, order []s
 	t.hChanged = false
 	return false
 }
+
+// op "replica": an interrupted replication. Only the top node of a persisted version (A) has
+// been copied to the other store when somebody opens the version there (through the shared
+// cache: opening reads just the top node) and then rebuilds the same contents in a fresh tree
+// on that store and persists it. MakeRoot may skip what the cache has seen *in this store*, but
+// everything else the returned root reaches must be in the store when it returns (C03).
+func (w *World) opReplica(op *Op) {
+	v := &Version{kind: "root", dead: true}
+	w.addVersion(v)
+	if w.cfg.InMemory || len(w.disks) < 2 {
+		return
+	}
+	src := w.version(op.A)
+	if src == nil || src.kind != "root" || src.dead || src.root == nil {
+		return
+	}
+	top := rootLink(src.root)
+	if top == "" {
+		return
+	}
+	dst := (src.disk + 1) % len(w.disks)
+	b, ok := w.disks[src.disk].Bytes(top)
+	if !ok {
+		return
+	}
+	w.disks[dst].Put(top, b)
+	if _, r := w.loadRoot(src.root, dst, asNodeCache(w.cache), nil); r.bad() {
+		return
+	}
+	t, r := w.newEmptyTree(dst)
+	if r.bad() {
+		w.failFor("C01", "newtree-fails", "creating an empty tree: %s", r)
+		return
+	}
+	for _, e := range src.snap.Entries() {
+		e := e
+		if r := guard(func() error { return t.m.Insert(ctx, w.kd.Key(e.K), w.vd.Val(e.V)) }); r.bad() {
+			w.failFor("C01", "insert-fails", "Insert(key#%d) while rebuilding a version: %s", e.K, r)
+			return
+		}
+		t.model.Put(e.K, e.V)
+	}
+	w.placeTree(op.T, t)
+	w.st.Probes["partial-replica-rebuilt"]++
+	d := w.disks[dst]
+	d.BeginCall()
+	fr := w.schedMakeRoot(t.m, d, 0, 0, "", false)
+	if w.monitorTripped(d) {
+		return
+	}
+	if fr.deadlock {
+		w.failFor("C03", "flush-deadlock", "MakeRoot neither returned nor has a Store in flight at quiescence (after %d steps)", fr.steps)
+		return
+	}
+	if fr.res.bad() {
+		if w.cfg.Marshaler == "json" && w.hasUnmarshalable(t.model) {
+			return
+		}
+		w.failFor("C01", "persist-fails", "MakeRoot on healthy store: %s", fr.res)
+		return
+	}
+	if fr.leftParked > 0 {
+		w.failFor("C03", "returned-with-writes-in-flight", "MakeRoot returned success while %d Store call(s) had not completed", fr.leftParked)
+		return
+	}
+	if w.cfg.Marshaler == "json" && w.hasUnmarshalable(t.model) {
+		return
+	}
+	w.st.OracleEvals++
+	_, obs, missing, rr := w.reachByObservation(fr.root, dst)
+	if len(missing) > 0 {
+		w.failFor("C03", "root-incomplete/partial-replica", "a store held only the top node of a version; the same contents were rebuilt and persisted there; the returned root reaches %d node(s) that are not in that store (e.g. %s)", len(missing), missing[0])
+		return
+	}
+	if rr.bad() || !sameStrs(obs, w.modelObs(t.model)) {
+		t.base, t.baseRoot = nil, nil
+		w.softFor("C05", "persisted-contents-differ"+w.cfgPredicate(), "root of a rebuilt replica reads back differently: %s %s", rr, firstDiff(obs, w.modelObs(t.model)))
+		return
+	}
+	*v = Version{kind: "root", root: fr.root, disk: dst, snap: t.model.Clone(), obs: obs, obsOK: true}
+	t.base = t.model.Clone()
+	t.baseRoot = fr.root
+	t.baseHeight = int(fr.root.Height)
+	t.modKeys = map[int]bool{}
+	t.hChanged = false
+}
